@@ -74,8 +74,23 @@ def main():
         print(tb)
         out.violation(f'{prop}:harness-crash', 'the check itself crashed: ' + tb[-500:], {'traceback': tb}, no_input=True)
 
-    # ---- a broken proof obligation with no concrete failing input found is still a violation
+    # ---- something no longer checks and the quick streams found no failing input: search harder before giving up
     has_input = any(not v['no_input'] for v in out.violations)
+    alarm = bool(failed_files or broken_tables or bad_h or out.violations)
+    if alarm and not has_input and a.tier == 'quick' and not os.environ.get('VERIF_NO_ESCALATE'):
+        out2 = Outcome(prop, 'thorough', seed + 1)
+        ctx2 = dict(ctx, tier='thorough', seed=seed + 1, escalated=True)
+        try:
+            mod.run(ctx2, out2)
+        except Exception:
+            pass
+        found = [v for v in out2.violations if not v['no_input']]
+        out.extra['escalated_search'] = {'tier': 'thorough', 'seed': seed + 1, 'evaluations': out2.evaluations,
+                                         'failing_inputs_found': len(found)}
+        out.evaluations += out2.evaluations
+        out.violations.extend(found)
+        has_input = bool(found)
+    # ---- a broken proof obligation with no concrete failing input found is still a violation
     if not has_input:
         for f, msg in failed_files.items():
             out.violation(f'{prop}:proof:{f}', f'proof obligation {f} no longer checks: {msg}',
